@@ -392,6 +392,8 @@ def run(tier):
         "Decided over every function of the library (74 units) on every CFG path: NULLCHK, LEAK (failure returns only), DANGLE, "
         "REALLOC; over the five containers' fallible operations: ATOMIC (object unchanged on every path to a failure return); "
         "over the void deleters/shrinkers/cancels/destructors of the anchored units: INFALLIBLE (allocation failure handled locally). "
+        "DOUBLE-FREE: no path that has passed an allocation-failure edge releases an object twice, within a function or across a failed call whose "
+        "callee releases an argument on its own failure path. "
         "These are the error-discipline clauses of the property for the k-th failing allocation at every k, since every acquisition "
         "site's failure edge is followed. Not decided: leaks on success paths, libc behaviour under real exhaustion, "
         "the refinement of container contents.",
